@@ -182,6 +182,12 @@ def run(tier, seed, model_ok, spec_ok, replay=None):
                         [type(a) for a in list(lx.args) + list(lx.kwargs.values())] != [type(a) for a in list(ly.args) + list(ly.kwargs.values())]:
                     if lx.method in ("in_range", "not_in_range") and ly.method == lx.method:
                         return ["range-bound-numeric-type"]
+                    # the same for has_factor / factor_of: an int and the == float give different remainders on integers beyond 2**53
+                    if lx.method in ("has_factor", "factor_of") and ly.method == lx.method and lx.cls == ly.cls:
+                        ax, ay = list(lx.args) + list(lx.kwargs.values()), list(ly.args) + list(ly.kwargs.values())
+                        if len(ax) == len(ay) == 1 and type(ax[0]) is not type(ay[0]) and all(isinstance(v, (bool, int, float)) for v in ax + ay) \
+                                and ax[0] == ay[0]:
+                            return ["factor-numeric-type"]
         except Exception:
             pass
         return []
@@ -230,7 +236,26 @@ def run(tier, seed, model_ok, spec_ok, replay=None):
         # conditions
         t = cg.tree(doc, depth=g.r.choice([0, 0, 1, 2]), null_p=0.05)
         if g.r.random() < 0.25:
-            t = rg.with_path_arg(t, copy_value(doc))      # conditions that look at other nodes through data paths
+            planted = copy_value(doc)
+            t = rg.with_path_arg(t, planted)      # conditions that look at other nodes through data paths
+            # a condition that has been used compares equal to a freshly built one: the two then behave alike on the SAME source
+            # object, also after the caller edited that object in between
+            try:
+                used, src = t.build(), copy_value(planted)
+                items0 = copy_value(planted)
+                used.filter(copy_value(items0), source_data=src)
+                for key in (["_arg", "_item", "_arg2", "_item2"] if isinstance(src, dict) else [len(src) - 1]):
+                    if isinstance(src, list) or key in src:
+                        src[key] = change_value(g, src[key])
+                a_ = E.run_outcome(lambda: list(used.filter(copy_value(items0), source_data=src).result))
+                b_ = E.run_outcome(lambda: list(t.build().filter(copy_value(items0), source_data=src).result))
+                dist["used-vs-fresh"] += 1
+                if a_ != b_ and used == t.build():
+                    viol.append({"kind": "condition", "variant": "used", "x": t.descr()[:300], "what_failed": "equal objects behave differently",
+                                 "flags": [], "detail": "a condition used before the source document was edited vs a freshly built one",
+                                 "beh_x": repr(a_)[:200], "beh_y": repr(b_)[:200]})
+            except Exception:
+                pass
         what, y = variant_cond(g, cg, t, doc)
         try:
             x_, y_ = t.build(), y.build()
